@@ -279,3 +279,43 @@ Example C09_example_hypotheses :
   braces_nested [125; 37; 85; 112; 112; 101; 114; 123] = false /\
   compiles ex_tagreg [125; 37; 85; 112; 112; 101; 114; 123] = false.
 Proof. vm_compute. split; [eexists; split; [reflexivity|split; [|reflexivity]]|repeat split]. left. reflexivity. Qed.
+
+(* ---- the whole program: tempren <options> <template text> <input directories> on a tree (added once the
+   component models were composed: Whole/Main.v [tempren_main]) ---- *)
+From Tempren Require Import Whole.Library Whole.Render Whole.Gather Whole.Main Whole.Theorems Whole.Examples.
+
+(* [tempren_main upper lower R o text dirs s]: R = ANY registry value (names, signatures, context rules, alias
+   texts), o = mode, strategy, dry-run, -r, -ih, --sort %Name(), answers, fault index, listing order of the
+   operating system, text = the name/path template as typed, dirs = the input paths, s = ANY tree; upper/lower =
+   the case maps.  A text that does not compile: no system call, no intermediate state, the tree unchanged, no
+   report line; the exit status is 3 whenever argparse accepts the command line (non-empty text, at least one
+   input path, all of them exist) and a gatherer exists (always, except recursive directory mode without any
+   input directory); the two earlier exits are status 2 (argparse) and 126 (CombinedFileGatherer([])). *)
+Theorem C09_whole_bad_template_untouched : forall upper lower R o text dirs s,
+  is_error (compile R text) ->
+  let r := tempren_main upper lower R o text dirs s in
+  r_calls r = [] /\ r_states r = [] /\ r_final r = s /\ r_report r = [] /\
+  (args_ok s text dirs = true -> no_gatherers o s dirs = false -> r_status r = 3%Z) /\
+  (r_status r = 3%Z \/ r_status r = 2%Z \/ r_status r = 126%Z).
+Proof. exact whole_bad_template_untouched. Qed.
+Print Assumptions C09_whole_bad_template_untouched.
+
+(* %Nme()  %Upper()  %Name(  against the core library, on a concrete tree: status 3, nothing touched;
+   a text that compiles goes on to rename four files *)
+Example C09_whole_example :
+  (forall t, In t [t_unknown_tag; t_no_context; Examples.t_open_paren] ->
+     compiles core_reg t = false /\
+     r_status (ex_main (ex_options MName true true) t ex_dirs ex_tree) = 3%Z /\
+     r_calls (ex_main (ex_options MName true true) t ex_dirs ex_tree) = [] /\
+     r_final (ex_main (ex_options MName true true) t ex_dirs ex_tree) = ex_tree) /\
+  compiles core_reg t_upper_count = true /\
+  r_status (ex_main (ex_options MName true true) t_upper_count ex_dirs ex_tree) = 0%Z /\
+  length (r_calls (ex_main (ex_options MName true true) t_upper_count ex_dirs ex_tree)) = 4%nat /\
+  (* argparse goes first: a missing input path is status 2 even with a bad template *)
+  r_status (ex_main (ex_options MName true true) t_unknown_tag [[[110; 111]]] ex_tree) = 2%Z.
+Proof.
+  split.
+  - intros t H. cbn [In] in H.
+    repeat (destruct H as [<-|H]; [vm_compute; repeat split; reflexivity|]). destruct H.
+  - vm_compute. repeat split; reflexivity.
+Qed.
